@@ -1346,6 +1346,20 @@ Definition cgo_parts (c : cgr) (hs : labels) (adj : iadj) (ord : pyres labels) :
     list_eqb (pair_eqb Z.eqb labels_eqb) (cgr_int_adjacency hash63 c) adj;
     res_eqb (py_cgr_atoms_order c) ord ].
 Definition cgo_ok c hs adj ord : bool := forallb (fun x => x) (cgo_parts c hs adj ord).
+(* str(cgr) and the written atom order: the traversal model of C02 on the skeleton of the condensed graph, with the real
+   Morgan ranks as weights and the observed written order as tie-break priority (stands for CPython's set order) *)
+Definition zf (d : list (Z * Z)) (n : Z) : Z := match zget d n with Some x => x | None => 0 end.
+Definition cgs_ok (c : cgr) (w tb : list (Z * Z)) (txt : string) (ord : list Z) : bool :=
+  match cgr_smiles_text hash63 c (zf w) (zf tb) with
+  | Ok (t, o) => String.eqb t txt && list_eqb Z.eqb o ord
+  | Err _ => false
+  end.
+(* the whole of str(cgr): Morgan ranks by the model as well *)
+Definition cgstr_ok (c : cgr) (tb : list (Z * Z)) (txt : string) (ord : list Z) : bool :=
+  match cgr_str hash63 c (zf tb) with
+  | Ok (t, o) => String.eqb t txt && list_eqb Z.eqb o ord
+  | Err _ => false
+  end.
 (* the machine-integer tuple hash used for evaluation agrees with the reference definition over Z *)
 Definition h_agree (l : list Z) : bool := Z.eqb (hash63 l) (hash_ztuple l).
 '''
@@ -1376,6 +1390,21 @@ def corr_morgan(ck, rxns):
         adj = lst([tup(zraw(n), lst([tup(zraw(m), zraw(v)) for m, v in mb.items()])) for n, mb in h.int_adjacency.items()])
         cases.append(f'cgo_ok {cgr_term(h)} {hs} {adj} ({exp})')
         meta.append(tok)
+        if exp.startswith('Ok') and 0 < len(h._atoms) <= (40 if ck.tier == 'quick' else 70):
+            try:
+                txt, wo = str(h), list(h.smiles_atoms_order)
+            except Exception:
+                txt = None
+            if txt is not None:
+                tbl = lst([tup(zraw(n), zraw(i)) for i, n in enumerate(wo)])
+                wl = lst([tup(zraw(n), zraw(v)) for n, v in order.items()])
+                cases.append(f'cgs_ok {cgr_term(h)} {wl} {tbl} {cstr(txt)} {zl(wo)}')
+                meta.append(tok + ('string',))
+                ck.case(('cgr-string',) + tok, nontrivial=True)
+                ck.count('writer-cgr:' + ('discrete ranks' if len(set(order.values())) == len(order) else 'tied ranks'))
+                if len(h._atoms) <= 12:
+                    cases.append(f'cgstr_ok {cgr_term(h)} {tbl} {cstr(txt)} {zl(wo)}')
+                    meta.append(tok + ('whole string',))
         ck.case(('cgr-morgan',) + tok, nontrivial=len(h._atoms) > 1)
         ck.count('morgan:' + ('ranks all distinct' if exp.startswith('Ok') and len(set(order.values())) == len(order) else 'ties' if exp.startswith('Ok') else exp))
         for _, a in h.atoms():
@@ -1395,8 +1424,8 @@ def corr_morgan(ck, rxns):
     for t in sorted(tuples):
         cases.append(f'h_agree {zl(t)}')
         meta.append(('tuple', t))
-    ok, failing, log = coqcases.run_cases('c15_morgan', 'Graph Morgan MorganFast Compose CgrMorgan', cases, extra=EXTRA_MORGAN, shard=max(10, len(cases) // 16 + 1))
-    ck.oblige('correspondence: DynamicElement.__hash__ / DynamicBond.__hash__ / Morgan.int_adjacency / Morgan.atoms_order on condensed graphs == Coq model (CgrMorgan.v over Morgan.v)',
+    ok, failing, log = coqcases.run_cases('c15_morgan', 'Graph Morgan MorganFast Writer Compose CgrMorgan CgrWriter', cases, extra=EXTRA_MORGAN, shard=max(10, len(cases) // 16 + 1))
+    ck.oblige('correspondence: DynamicElement.__hash__ / DynamicBond.__hash__ / __int__ / Morgan.int_adjacency / Morgan.atoms_order / str(cgr) and its atom order on condensed graphs == Coq model (CgrMorgan.v over Morgan.v, CgrWriter.v over Writer.v)',
               ok and not failing, 'correspondence', log or str([meta[i] for i in failing[:5]]))
     ck.extra['correspondence_cases_morgan'] = len(cases)
     if not ok or failing:
@@ -1593,7 +1622,8 @@ def run(ck):
         r = fn(*a)
         phases[name] = round(time.time() - t0, 1)
         return r
-    proved = timed('proof steps', common.standard_proof_steps, ck, [])
+    # generated files in the closure of props/C15.v: the C15 tables (tools/gen_cgr.py) and those of the writer model of C02
+    proved = timed('proof steps', common.standard_proof_steps, ck, ['cgr', 'smiles_tables', 'elements', 'stereo'])
     n = 300 if ck.tier == 'quick' else 1500
     rxns = timed('generate', gen_reactions, ck, n)
     ck.extra['reactions'] = len(rxns)
